@@ -21,6 +21,19 @@ impl EventGen for ReuseElement {
         // of any vars set by this.
         reuse_element.eval_attributes(context)?;
 
+        // The attributes become variables of the target; as with `<var>`, detect /
+        // prevent uncontrolled expansion of their values (a recursive reuse with
+        // e.g. `a="$a$a"` would otherwise double the value at every level).
+        for (key, value) in &reuse_element.attrs {
+            if value.len() > context.config.var_limit as usize {
+                return Err(SvgdxError::VarLimitError(
+                    key.clone(),
+                    value.len(),
+                    context.config.var_limit,
+                ));
+            }
+        }
+
         context.push_element(&reuse_element);
         let elref = reuse_element
             .get_attr("href")
